@@ -69,6 +69,8 @@ HAND = [
 def make_jobs(r, n):
     jobs = [{"id": "h%d%s" % (k, to[0]), "kind": "hand", "from": frm, "src": src, "to": to}
             for k, (frm, src) in enumerate(HAND) for to in ("class", "function", "argparse")]  # fmt: skip
+    jobs.append({"id": "hdeco", "kind": "hand_deco", "from": "class", "to": "class",
+                 "src": 'class Net(object):\n    """\n    A net\n\n    :cvar layers: the layers\n    :cvar rate: the rate\n    """\n\n    layers: int = 3\n    rate: float = 0.5\n'})
     r.shuffle(jobs)
     for i in range(n):
         k = r.random()
